@@ -12,4 +12,22 @@ RULES = [
 
 
 def generate(repo, T):
-    return {"Fi.lean": T.gen_consts(repo, RULES)}
+    import re
+    txt = T.gen_consts(repo, RULES)
+    # source shape of is_empty(): `map.get_num_active() == 0` (pinned) or `total_weight == 0` (repaired)
+    src = T.strip_comments(T.read(repo, "fi/include/frequent_items_sketch_impl.hpp"))
+    m = re.search(r"::is_empty\(\)\s*const\s*\{\s*return\s*([^;]+);", src)
+    if not m:
+        T.fail("frequent_items_sketch::is_empty() body not recognised")
+        flag = "false"
+    else:
+        body = "".join(m.group(1).split())
+        if body == "map.get_num_active()==0":
+            flag = "false"
+        elif body == "total_weight==0":
+            flag = "true"
+        else:
+            T.fail("frequent_items_sketch::is_empty() has an unknown shape: %r" % m.group(1))
+            flag = "false"
+    txt = txt.replace("end DSGen", "/-- is_empty() is `total_weight == 0` (true) or `map.get_num_active() == 0` (false) -/\ndef fi_EMPTY_BY_TOTAL : Bool := %s\n\nend DSGen" % flag)
+    return {"Fi.lean": txt}
